@@ -1157,6 +1157,15 @@ func (ex *Exec) loadView(p PtrV, want types.Type) Value {
 			if sv.sort.bitWidth() == ws.bitWidth() {
 				return ex.reinterpretScalar(sv, ws)
 			}
+			// a narrower scalar at the start of a wider integer cell (little endian): its low bits
+			if sv.sort.K == SBV {
+				if ws.K == SBool && sv.sort.bitWidth() >= 8 {
+					return ex.tc.Not(ex.tc.Eq(ex.tc.Extract(sv, 7, 0), ex.tc.Const(BV(8), 0)))
+				}
+				if ws.K == SBV && ws.bitWidth() < sv.sort.bitWidth() {
+					return ex.tc.Extract(sv, ws.bitWidth()-1, 0)
+				}
+			}
 		}
 	case *types.Struct:
 		// string viewed as a header struct{data unsafe.Pointer; len int}: data points at a copy of the bytes
@@ -1209,6 +1218,21 @@ func (ex *Exec) storeView(p PtrV, v Value) {
 			ex.storeCell(p.c, ex.reinterpretScalar(t, cs))
 			return
 		}
+		// a narrower scalar stored at the start of a wider integer cell (little endian): replaces its low bits
+		if cs, _, ok2 := scalarSort(p.c.typ); ok2 && cs.K == SBV {
+			if old, ok3 := ex.loadCell(p.c).(*Term); ok3 {
+				W := cs.bitWidth()
+				if t.sort.K == SBool && W > 8 {
+					b8 := ex.tc.Ite(t, ex.tc.Const(BV(8), 1), ex.tc.Const(BV(8), 0))
+					ex.storeCell(p.c, ex.tc.Concat(ex.tc.Extract(old, W-1, 8), b8))
+					return
+				}
+				if t.sort.K == SBV && t.sort.bitWidth() < W {
+					ex.storeCell(p.c, ex.tc.Concat(ex.tc.Extract(old, W-1, t.sort.bitWidth()), t))
+					return
+				}
+			}
+		}
 	}
 	ex.inconclusive(fmt.Sprintf("unsupported store through unsafe view %v over %v", p.view, p.c.typ))
 }
@@ -1260,6 +1284,16 @@ func (ex *Exec) fieldAddr(p PtrV, i int) PtrV {
 		ex.nilDeref()
 	}
 	if p.view != nil {
+		// a string or slice read through a header struct {ptr, len[, cap]}: a snapshot of the header (reads only)
+		if st, ok := p.view.Underlying().(*types.Struct); ok && (st.NumFields() == 2 || st.NumFields() == 3) {
+			if hv, ok2 := ex.loadView(p, p.view).(StructV); ok2 && len(hv.f) == st.NumFields() {
+				tmp := ex.newCell(p.view)
+				for k := range hv.f {
+					ex.storeCell(tmp.kids[k], hv.f[k])
+				}
+				return PtrV{c: tmp.kids[i]}
+			}
+		}
 		ex.inconclusive(fmt.Sprintf("field access through unsafe view %v over %v", p.view, p.c.typ))
 	}
 	if p.c.kids == nil {
